@@ -285,7 +285,80 @@ use slicec::diagnostic_emitter::DiagnosticEmitter;
 use slicec::slice_options::SliceOptions;
 
 pub struct DiagnosticSpans {
+    /// 1 = single diagnostic sources, 2 = ordered pairs, 0 = the cross-file catalogue (notes that point into another file)
     pub arity: usize,
+}
+const N_CROSS: u64 = 12;
+
+/// Programs over two files of one module whose diagnostics carry notes that point into the OTHER file.
+fn cross_file_program(k: u64) -> (MFile, MFile) {
+    use crate::model::ast::*;
+    let mut f = MFile::module("M");
+    let mut g = MFile::module("M");
+    let i32t = || MType::prim("int32");
+    // padding, so that the same row / column means different text in the two files
+    f.defs.push(st("PadF", vec![MField::new("x", i32t())]));
+    g.defs.push(custom("PadG"));
+    g.defs.push(en("PadE", Some(MType::prim("uint8")), vec![enumerator("A"), enumerator("B")]));
+    match k {
+        0 => {
+            f.defs.push(st("Thing", vec![MField::new("a", MType::prim("bool"))]));
+            g.defs.push(st("Thing", vec![]));
+        }
+        1 => {
+            f.defs.push(custom("Thing"));
+            g.defs.push(iface("Thing", vec![], vec![]));
+        }
+        2 => {
+            f.defs.push(iface("A", vec![], vec![op("o", vec![], MRet::None)]));
+            g.defs.push(iface("I", vec![MType::named("A")], vec![op("o", vec![MParam::new("p", i32t())], MRet::None)]));
+        }
+        3 => {
+            f.defs.push(iface("A", vec![], vec![op("o", vec![], MRet::None)]));
+            f.defs.push(iface("B", vec![MType::named("A")], vec![]));
+            g.defs.push(iface("I", vec![MType::named("B")], vec![op("x", vec![], MRet::None), op("o", vec![], MRet::None)]));
+        }
+        4 => {
+            f.defs.push(st("S", vec![MField::new("t", MType::named("T"))]));
+            g.defs.push(st("T", vec![MField::new("s", MType::named("S"))]));
+        }
+        5 => {
+            f.defs.push(st("S", vec![MField::new("t", MType::seq(MType::named("T")).opt()), MField::new("u", MType::named("T"))]));
+            g.defs.push(st("T", vec![MField::new("e", MType::named("E"))]));
+            g.defs.push(en("E", None, vec![MEnumerator { c: MCommon::new("V"), fields: Some(vec![MField::new("s", MType::named("S"))]), value: None }]));
+        }
+        6 => {
+            let mut d = st("Old", vec![]);
+            *d.common_mut() = d.common().clone().attr(MAttr::with("deprecated", vec![MArg::Str("gone".into())]));
+            f.defs.push(d);
+            g.defs.push(st("U", vec![MField::new("o", MType::named("Old")), MField::new("p", MType::seq(MType::named("Old")))]));
+        }
+        7 => {
+            f.defs.push(alias("Al", i32t()));
+            g.defs.push(alias("Al", MType::prim("string")));
+            g.defs.push(st("Al", vec![]));
+        }
+        8 => {
+            f.defs.push(iface("I", vec![MType::named("J")], vec![]));
+            g.defs.push(iface("J", vec![MType::named("I")], vec![]));
+        }
+        9 => {
+            f.defs.push(alias("A1", MType::named("A2")));
+            g.defs.push(alias("A2", MType::named("A1")));
+        }
+        10 => {
+            f.defs.push(en("E", None, vec![enumerator("A")]));
+            g.defs.push(en("E", Some(MType::prim("uint8")), vec![enumerator("A")]));
+            g.defs.push(st("UsesE", vec![MField::new("d", MType::dict(MType::named("E"), i32t()))]));
+        }
+        _ => {
+            // three definitions of one name: two notes-bearing diagnostics, first definition in the other file
+            f.defs.push(st("Thing", vec![]));
+            g.defs.push(custom("Thing"));
+            g.defs.push(alias("Thing", i32t()));
+        }
+    }
+    (f, g)
 }
 const DIAG_LAYOUTS: [Sep; 7] = [Sep::Space, Sep::Newline, Sep::Tab, Sep::CrLf, Sep::MultiByteComment, Sep::BlankLinesIndent, Sep::MultiByteLines];
 
@@ -313,15 +386,21 @@ fn def_extent(r: &Rendered, di: usize) -> Option<(Loc, Loc)> {
 
 impl Family for DiagnosticSpans {
     fn name(&self) -> String {
+        if self.arity == 0 {
+            return format!("diagnostic-spans-and-snippets/cross-file notes: {N_CROSS} programs over two files of one module whose diagnostics carry notes into the other file (redefinitions, redeclared inherited operations, containment / inheritance / alias cycles, deprecated uses) x both file orders x 7 layouts");
+        }
         format!("diagnostic-spans-and-snippets/{} of {} diagnostic sources x 7 layouts (tabs, CRLF, multi-byte comments, one token per line, non-ASCII text on every line of multi-line spans)", ["", "singles", "ordered pairs"][self.arity], N_SOURCES)
     }
     fn len(&self) -> u64 {
+        if self.arity == 0 {
+            return N_CROSS * 2 * 7;
+        }
         (N_SOURCES as u64).pow(self.arity as u32) * 7
     }
     fn describe(&self, idx: u64) -> Value {
         let (p, layout, ks) = self.decode(idx);
         let r = render_program(&p, &layout);
-        serde_json::json!({"sources": ks, "layout": layout.describe(), "file": r[0].text})
+        serde_json::json!({"sources": ks, "layout": layout.describe(), "file": r[0].text, "files": r.iter().map(|x| x.text.clone()).collect::<Vec<_>>()})
     }
     fn run(&self, idx: u64) -> CaseOut {
         let (p, layout, ks) = self.decode(idx);
@@ -384,63 +463,98 @@ impl Family for DiagnosticSpans {
                 Ok(Ok(())) => {}
             }
             let stream = String::from_utf8_lossy(&buf).to_string();
-            // the first location line belongs to the diagnostic itself
+            // the location lines, in order: the diagnostic's own span, then every note that has a span
+            let mut targets: Vec<(usize, Loc, Loc, String)> = vec![(fi, s, t, "diagnostic".to_string())];
+            for (ni, (_, nsp)) in d.notes.iter().enumerate() {
+                if let Some((nfile, nsp)) = nsp {
+                    let nfi: usize = nfile.trim_start_matches("string-").parse().unwrap_or(0);
+                    targets.push((nfi, Loc { row: nsp.sr, col: nsp.sc }, Loc { row: nsp.er, col: nsp.ec }, format!("note #{ni}")));
+                }
+            }
             let sl: Vec<&str> = stream.lines().collect();
-            let Some(li) = sl.iter().position(|l| l.starts_with(" --> ")) else {
+            let location_lines: Vec<usize> = sl.iter().enumerate().filter(|(_, l)| l.starts_with(" --> ")).map(|(i, _)| i).collect();
+            if location_lines.is_empty() {
                 out.violate(format!("c09/diagnostic/{}/no-location-line", d.code), ctx(&stream));
                 continue;
-            };
-            // numbered lines and their highlight lines
-            let mut row = s.row;
-            let mut k = li + 2; // skip the location line and the first gutter line
-            while row <= t.row && row <= lines.len() {
-                obligations += 1;
-                let Some(src_line) = sl.get(k) else {
-                    out.violate(format!("c09/diagnostic/{}/snippet-lines-missing", d.code), ctx(&format!("snippet ends before row {row}:\n{stream}")));
-                    break;
-                };
-                let Some(hl_line) = sl.get(k + 1) else { break };
-                let Some((num, _shown)) = src_line.split_once('|') else {
-                    out.violate(format!("c09/diagnostic/{}/snippet-format", d.code), ctx(&format!("unexpected snippet line {src_line:?}:\n{stream}")));
-                    break;
-                };
-                if num.trim().parse::<usize>().ok() != Some(row) {
-                    out.violate(format!("c09/diagnostic/{}/snippet-line-number", d.code), ctx(&format!("snippet shows line number {:?} for row {row}:\n{stream}", num.trim())));
-                    break;
-                }
-                let chars: Vec<char> = lines[row - 1].chars().collect();
-                let hs = if row == s.row { s.col - 1 } else { 0 };
-                let he = if row == t.row { t.col - 1 } else { chars.len() };
-                let hl = hl_line.split_once('|').map(|x| x.1).unwrap_or("");
-                let lead = hl.chars().take_while(|c| *c == ' ').count();
-                let mark: String = hl.chars().skip(lead).collect();
-                if he < hs {
-                    out.violate(format!("c09/diagnostic/{}/span-columns-reversed-on-line", d.code), ctx(&format!("row {row}: columns {hs}..{he}")));
-                    break;
-                }
-                if hs == he {
-                    if !(mark == "/\\" && lead == visual(&chars, hs)) {
-                        out.violate(format!("c09/diagnostic/{}/snippet-pointer", d.code), ctx(&format!("row {row}: empty span at column {} must be shown by a pointer under it; highlight line {hl_line:?}:\n{stream}", hs + 1)));
-                        break;
-                    }
-                } else {
-                    let exp_lead = 1 + visual(&chars, hs);
-                    let exp_len = visual(&chars, he.min(chars.len())) - visual(&chars, hs.min(chars.len())) + he.saturating_sub(chars.len().max(hs));
-                    if lead != exp_lead || mark.chars().any(|c| c != '-') || mark.chars().count() != exp_len {
-                        out.violate(
-                            format!("c09/diagnostic/{}/snippet-underline", d.code),
-                            ctx(&format!("row {row}: the underline must start {exp_lead} columns after the gutter and be {exp_len} long (tabs shown as 4 spaces), but the highlight line is {hl_line:?} (starts at {lead}, {} long):\n{stream}", mark.chars().count())),
-                        );
-                        break;
-                    }
-                }
-                row += 1;
-                k += 2;
             }
-            // nothing but the spanned lines is shown
-            if let Some(next) = sl.get(k) {
-                if next.split_once('|').map_or(false, |(num, _)| num.trim().parse::<usize>().is_ok()) {
-                    out.violate(format!("c09/diagnostic/{}/snippet-shows-extra-line", d.code), ctx(&format!("the snippet shows a line after the last spanned row:\n{stream}")));
+            if location_lines.len() != targets.len() {
+                out.violate(format!("c09/diagnostic/{}/location-lines-and-spans-differ-in-number", d.code), ctx(&format!("{} spans (diagnostic + notes) but {} location lines:\n{stream}", targets.len(), location_lines.len())));
+                continue;
+            }
+            for ((tfi, s, t, what), li) in targets.into_iter().zip(location_lines.into_iter()) {
+                let (s, t) = (s, t);
+                let what_sig = if what == "diagnostic" { "snippet" } else { "note-snippet" };
+                let Some(tr) = keep.get(tfi) else { continue };
+                let lines: Vec<&str> = tr.text.lines().collect();
+                if what != "diagnostic" && (!le(s, t) || s.row < 1 || s.col < 1 || t.row > lines.len() + 1) {
+                    out.violate(format!("c09/diagnostic/{}/note-span-outside-file-or-reversed", d.code), ctx(&format!("{what}: span {}:{}..{}:{} of file {tfi}", s.row, s.col, t.row, t.col)));
+                    continue;
+                }
+                // the header names the file and the start of the span
+                obligations += 1;
+                let header = format!(" --> string-{tfi}:{}:{}", s.row, s.col);
+                if sl[li].trim_end() != header {
+                    out.violate(format!("c09/diagnostic/{}/{what_sig}-location-line", d.code), ctx(&format!("{what}: the location line must be {header:?} but is {:?}:\n{stream}", sl[li])));
+                    continue;
+                }
+                // numbered lines and their highlight lines
+                let mut row = s.row;
+                let mut k = li + 2; // skip the location line and the first gutter line
+                while row <= t.row && row <= lines.len() {
+                    obligations += 1;
+                    let Some(src_line) = sl.get(k) else {
+                        out.violate(format!("c09/diagnostic/{}/{what_sig}-lines-missing", d.code), ctx(&format!("{what}: snippet ends before row {row}:\n{stream}")));
+                        break;
+                    };
+                    let Some(hl_line) = sl.get(k + 1) else { break };
+                    let Some((num, shown)) = src_line.split_once('|') else {
+                        out.violate(format!("c09/diagnostic/{}/{what_sig}-format", d.code), ctx(&format!("{what}: unexpected snippet line {src_line:?}:\n{stream}")));
+                        break;
+                    };
+                    if num.trim().parse::<usize>().ok() != Some(row) {
+                        out.violate(format!("c09/diagnostic/{}/{what_sig}-line-number", d.code), ctx(&format!("{what}: snippet shows line number {:?} for row {row}:\n{stream}", num.trim())));
+                        break;
+                    }
+                    // the text shown is that row of THAT file (tabs shown as 4 spaces)
+                    let want = lines[row - 1].replace('\t', "    ");
+                    if shown.strip_prefix(' ').unwrap_or(shown).trim_end() != want.trim_end() {
+                        out.violate(format!("c09/diagnostic/{}/{what_sig}-shows-another-line", d.code), ctx(&format!("{what}: row {row} of file {tfi} is {:?} but the snippet shows {:?}:\n{stream}", want, shown)));
+                        break;
+                    }
+                    let chars: Vec<char> = lines[row - 1].chars().collect();
+                    let hs = if row == s.row { s.col - 1 } else { 0 };
+                    let he = if row == t.row { t.col - 1 } else { chars.len() };
+                    let hl = hl_line.split_once('|').map(|x| x.1).unwrap_or("");
+                    let lead = hl.chars().take_while(|c| *c == ' ').count();
+                    let mark: String = hl.chars().skip(lead).collect();
+                    if he < hs {
+                        out.violate(format!("c09/diagnostic/{}/span-columns-reversed-on-line", d.code), ctx(&format!("{what}: row {row}: columns {hs}..{he}")));
+                        break;
+                    }
+                    if hs == he {
+                        if !(mark == "/\\" && lead == visual(&chars, hs)) {
+                            out.violate(format!("c09/diagnostic/{}/{what_sig}-pointer", d.code), ctx(&format!("{what}: row {row}: empty span at column {} must be shown by a pointer under it; highlight line {hl_line:?}:\n{stream}", hs + 1)));
+                            break;
+                        }
+                    } else {
+                        let exp_lead = 1 + visual(&chars, hs);
+                        let exp_len = visual(&chars, he.min(chars.len())) - visual(&chars, hs.min(chars.len())) + he.saturating_sub(chars.len().max(hs));
+                        if lead != exp_lead || mark.chars().any(|c| c != '-') || mark.chars().count() != exp_len {
+                            out.violate(
+                                format!("c09/diagnostic/{}/{what_sig}-underline", d.code),
+                                ctx(&format!("{what}: row {row}: the underline must start {exp_lead} columns after the gutter and be {exp_len} long (tabs shown as 4 spaces), but the highlight line is {hl_line:?} (starts at {lead}, {} long):\n{stream}", mark.chars().count())),
+                            );
+                            break;
+                        }
+                    }
+                    row += 1;
+                    k += 2;
+                }
+                // nothing but the spanned lines is shown
+                if let Some(next) = sl.get(k) {
+                    if next.split_once('|').map_or(false, |(num, _)| num.trim().parse::<usize>().is_ok()) {
+                        out.violate(format!("c09/diagnostic/{}/{what_sig}-shows-extra-line", d.code), ctx(&format!("{what}: the snippet shows a line after the last spanned row:\n{stream}")));
+                    }
                 }
             }
         }
@@ -457,6 +571,11 @@ impl DiagnosticSpans {
     fn decode(&self, idx: u64) -> (crate::model::ast::Program, Layout, Vec<usize>) {
         let li = (idx % 7) as usize;
         let mut r = idx / 7;
+        if self.arity == 0 {
+            let (f, g) = cross_file_program(r / 2);
+            let files = if r % 2 == 0 { vec![f, g] } else { vec![g, f] };
+            return (files, Layout::uniform(DIAG_LAYOUTS[li], Commas::None), vec![(r / 2) as usize, (r % 2) as usize]);
+        }
         let mut ks = vec![];
         for _ in 0..self.arity {
             ks.push((r % N_SOURCES as u64) as usize);
@@ -471,7 +590,7 @@ impl DiagnosticSpans {
 }
 
 pub fn families(tier: &str) -> Vec<Box<dyn Family>> {
-    let mut v: Vec<Box<dyn Family>> = vec![Box::new(DiagnosticSpans { arity: 1 }), Box::new(DiagnosticSpans { arity: 2 })];
+    let mut v: Vec<Box<dyn Family>> = vec![Box::new(DiagnosticSpans { arity: 1 }), Box::new(DiagnosticSpans { arity: 2 }), Box::new(DiagnosticSpans { arity: 0 })];
     v.push(Box::new(Positions { inner: Box::new(NonAsciiDocs) }));
     v.extend(crate::model::families::program_families(tier).into_iter().map(|f| Box::new(Positions { inner: f }) as Box<dyn Family>));
     v
